@@ -137,8 +137,10 @@ func enumerated() [][]byte {
 		out = append(out, f)
 	}
 	// Ethernet types with short and long payloads
-	for _, typ := range []uint16{0x0800, 0x0806, 0x86dd, 0, 0xffff} {
-		for _, n := range []int{0, 1, 7, 19, 20, 21, 27, 28, 40, 60, 1500} {
+	// (incl. the tagging and encapsulating types a trunk port or a tunnel delivers: 802.1Q, QinQ, MPLS, PPPoE, LLDP -
+	// a decoder that looks behind the tag finds 0..5 bytes there in the runt cases)
+	for _, typ := range []uint16{0x0800, 0x0806, 0x86dd, 0, 0xffff, 0x8100, 0x88a8, 0x9100, 0x8847, 0x8864, 0x88cc} {
+		for _, n := range []int{0, 1, 2, 3, 4, 5, 7, 19, 20, 21, 27, 28, 40, 60, 1500} {
 			add(eth(make([]byte, n), typ))
 			b := make([]byte, n)
 			for i := range b {
